@@ -7,7 +7,7 @@ Receiver: Manager.got_record always acks, dispatches a record iff its seqnum is 
 watermark, and raises the watermark.  lemma:receive_run puts the two together for one connection.
 """
 from pyvc.contract import Contract
-from pyvc.runner import ContractTask
+from pyvc.runner import ContractTask, FuncTask
 from . import dilq
 from .dilq import *   # noqa
 
@@ -125,6 +125,30 @@ LEMMAS = [
                   "watermark+1, as the sender only retires what was acked), the receiver dispatches exactly the records "
                   "above its watermark, each once, in order, and ends with watermark = last seqnum seen"),
 ]
+
+
+def _rel(e, new, old):
+    """a RELY clause (about self / old(self)) as a relation between two Outbound objects"""
+    import re
+    e = e.replace("old(conn_sent(self))", f"conn_sent({old})")
+    e = re.sub(r"old\(self\.(\w+)\)", old + r".\1", e)
+    return e.replace("(self)", f"({new})").replace("self.", new + ".")
+
+
+LEMMAS.append(Contract(
+    "lemma:rely_transitive", props=[PROP], source_module="wormhole/_dilation/outbound.py",
+    params={"a": "obj[Outbound]", "b": "obj[Outbound]", "c": "obj[Outbound]", "w1": f"seq[{SEQREC}]", "w2": f"seq[{SEQREC}]"},
+    source_text="""
+    def rely_transitive(a, b, c, w1, w2):
+        return None
+    """,
+    requires=["(a._connection is None) == (b._connection is None) and (b._connection is None) == (c._connection is None)"] +
+             [_rel(e, "b", "a").replace("W", "w1") for e in dilq.RELY] + [_rel(e, "c", "b").replace("W", "w2") for e in dilq.RELY],
+    ensures=[(nm, _rel(e, "c", "a").replace("W", "(w1 + w2)")) for nm, e in zip(dilq.RELY_NAMES, dilq.RELY)],
+    note="the guarantee that every re-entrant Outbound entry point gives (the rely.* clauses) is closed under "
+         "composition, so assuming it once for a whole producer turn (any number of re-entrant calls) is justified; "
+         "reflexivity is immediate (W = [])"))
+
 for _c in INBOUND + LEMMAS:
     _c.qf_feasibility = True
 for _c in INBOUND + SEND + [GOT]:
@@ -133,15 +157,39 @@ for _c in INBOUND + SEND + [GOT]:
 CONTRACTS = dilq.outbound_contracts() + SEND + INBOUND + [GOT] + LEMMAS
 
 
-def regf():
-    reg = dilq.make_reg(CONTRACTS + [HANDLE_OPEN_STUB])
+def regf(exclude=()):
+    reg = dilq.make_reg(CONTRACTS + [HANDLE_OPEN_STUB], exclude)
     reg.boundary_returns = {}
     return reg
 
 
 def tasks():
-    return [ContractTask(c, regf) for c in CONTRACTS if PROP in c.props]
+    return [ContractTask(c, regf) for c in CONTRACTS if PROP in c.props] + \
+        [FuncTask("list-op-facts", dilq.list_facts_task, False, "model-validation")]
 
 
-TRUSTED = list(dilq.TRUSTED_COMMON)
-ASSUMPTIONS = []
+TRUSTED = list(dilq.TRUSTED_COMMON) + [
+    "boundary model: connection.send_record(r) appends r to the connection's ghost stream `sent` and may synchronously "
+    "call Outbound.pauseProducing() (the transport's buffer filled up) - nothing else",
+    "boundary model: an application producer's resumeProducing() may re-enter Outbound any number of times through "
+    "Manager.send_open/send_data/send_close, subchannel_registerProducer, subchannel_unregisterProducer and (via the "
+    "transport) pauseProducing: havoc under the rely.* clauses those entry points are proved to guarantee "
+    "(closed under composition: lemma:rely_transitive)",
+    "transport.registerProducer / unregisterProducer and Producer.pauseProducing / PullToPush.startStreaming / "
+    "stopStreaming do not call back into Outbound",
+]
+ASSUMPTIONS = [
+    "L2 delivers the records handed to one connection whole, in order, possibly cut short (C12); acks are only produced by "
+    "Manager.got_record, so an ack's seqnum never exceeds the receiver's watermark",
+    "glue between the two sides that is argued, not machine-checked: (a) by use_connection.c10.everything-unacked-replayed-first "
+    "and inv.q-contiguous-seqnums the stream of a connection is the un-acked queue from its oldest record on, a contiguous run; a "
+    "prefix of it is again contiguous; (b) by handle_ack.c10.first-unretired the oldest un-acked seqnum is at most (highest ack)+1 "
+    "<= receiver watermark+1. (a)+(b) are the preconditions of lemma:receive_run, which gives: dispatched seqnums are "
+    "watermark+1, watermark+2, ... each once, in order, on every connection",
+    "Outbound.use_connection is only called while there is no connection (Manager stops the old one first; one connection at "
+    "a time is C11) and, like resumeProducing/stop_using_connection/handle_ack, from the reactor, not from inside a producer's turn",
+    "Manager.got_record is under contract for Open/Data/Close/Ack; Ping/Pong/KCM handling is C16's",
+    "Inbound.handle_open (builds a SubChannel, subprotocol factories) is a dispatch boundary here: assumed to return and not to "
+    "touch the watermark (C13 covers it); handle_data/handle_close are verified",
+    "not decided: that a replacement connection is eventually made, and that the peer eventually acks (liveness, C11/C16)",
+]
